@@ -76,6 +76,37 @@ class _Loc(object):
         self._o._set_row(key, value, self._pos)
 
 
+class _GroupBy(object):
+    _sa_mock = True
+
+    def __init__(self, series, labels):
+        self._groups = {}
+        for lab, v in zip(labels, series._values):
+            self._groups.setdefault(lab, []).append(v)
+
+    def _agg(self, f):
+        keys = sorted(self._groups, key=lambda k: (str(type(k)), k))          # pandas sorts the group keys
+        return MiniSeries([f(self._groups[k]) for k in keys], index=keys)
+
+    def sum(self):
+        return self._agg(lambda vs: sum(vs))
+
+    def count(self):
+        return self._agg(len)
+
+    def size(self):
+        return self._agg(len)
+
+    def mean(self):
+        return self._agg(lambda vs: sum(vs) / len(vs))
+
+    def max(self):
+        return self._agg(max)
+
+    def min(self):
+        return self._agg(min)
+
+
 class MiniSeries(object):
     _sa_mock = True
 
@@ -258,6 +289,26 @@ class MiniSeries(object):
 
     def min(self):
         return min(self._values)
+
+    def groupby(self, by):
+        """group the values by the labels `by` gives to this series' index (another series aligned by index, a mapping, or a list in index order)"""
+        if isinstance(by, MiniSeries):
+            lab = dict(zip(by._index, by._values))
+            labels = []
+            for k in self._index:
+                if k not in lab:
+                    raise Unsupported("groupby: key %r of the grouped series has no label" % (k,))
+                labels.append(lab[k])
+        elif isinstance(by, dict):
+            labels = [by[k] for k in self._index]
+        elif isinstance(by, (list, tuple)) and len(by) == len(self._index):
+            labels = list(by)
+        else:
+            raise Unsupported("groupby(%r)" % (type(by).__name__,))
+        return _GroupBy(self, labels)
+
+    def get(self, key, default=None):
+        return self._values[self._index.index(key)] if key in self._index else default
 
     def value_counts(self):
         order, counts = [], {}
